@@ -37,8 +37,15 @@ def study_name(o, sid):
   return 'owners/%s/studies/%s' % (OWNERS[o], STUDIES[sid])
 
 
-def trial_name(o, sid, tid):
-  return study_name(o, sid) + '/trials/%d' % tid
+def trial_name(o, sid, tid, variant=''):
+  """variant: another spelling of the same trial id that the resource-name parser accepts ('z' 01, 'p' +1, 's' trailing space)."""
+  sp = {'': '%d', 'z': '0%d', 'p': '+%d', 's': '%d '}[variant] % tid
+  return study_name(o, sid) + '/trials/' + sp
+
+
+def _variant(rpc):
+  """GetTrial / StopTrial / DeleteTrial tuples may carry a spelling variant as a fifth element (the model ignores it)."""
+  return rpc[4] if len(rpc) > 4 else ''
 
 
 # ------------------------------------------------------------------ scripted algorithm
@@ -379,7 +386,7 @@ def apply_rpc(serv, holder, rpc):
       r = serv.SuggestTrials(vs.SuggestTrialsRequest(parent=study_name(o, sid), suggestion_count=count, client_id=CLIENTS[c]))
       return ('Done', 'RpOp', c_op(r))
     if kind == 'GetTrial':
-      r = serv.GetTrial(vs.GetTrialRequest(name=trial_name(rpc[1], rpc[2], rpc[3])))
+      r = serv.GetTrial(vs.GetTrialRequest(name=trial_name(rpc[1], rpc[2], rpc[3], _variant(rpc))))
       return ('Done', 'RpTrial', c_trial(r))
     if kind == 'ListTrials':
       r = serv.ListTrials(vs.ListTrialsRequest(parent=study_name(rpc[1], rpc[2])))
@@ -399,10 +406,10 @@ def apply_rpc(serv, holder, rpc):
       r = serv.CompleteTrial(req)
       return ('Done', 'RpTrial', c_trial(r))
     if kind == 'StopTrial':
-      r = serv.StopTrial(vs.StopTrialRequest(name=trial_name(rpc[1], rpc[2], rpc[3])))
+      r = serv.StopTrial(vs.StopTrialRequest(name=trial_name(rpc[1], rpc[2], rpc[3], _variant(rpc))))
       return ('Done', 'RpTrial', c_trial(r))
     if kind == 'DeleteTrial':
-      serv.DeleteTrial(vs.DeleteTrialRequest(name=trial_name(rpc[1], rpc[2], rpc[3])))
+      serv.DeleteTrial(vs.DeleteTrialRequest(name=trial_name(rpc[1], rpc[2], rpc[3], _variant(rpc))))
       return ('Done', 'RpEmpty', None)
     if kind == 'CheckEarlyStop':
       _, recycle, o, sid, tid, oracle = rpc
@@ -459,7 +466,7 @@ def snapshot(serv):
           except custom_errors.NotFoundError:
             pass
         es = []
-        mx = max([int(t.id) for t in trials] + [0]) + 3
+        mx = max(max([int(t.id) for t in trials] + [0]) + 3, 12)    # early-stopping records may exist for ids that are not trials
         for tid in range(1, mx + 1):
           try:
             es.append(c_es(ds.get_early_stopping_operation(
@@ -663,6 +670,10 @@ class Gen:
     self.p = {'suggest': 0.18, 'fail': 0.1, 'delete_study': 0.02, 'owner2': 0.33, 'md': 0.0, 'optimal': 0.0}
     self.p.update(profile or {})
 
+  def spelling(self):
+    """Now and then the trial is named by another spelling of its id (leading zero, plus sign, trailing space)."""
+    return (self.r.choice('zps'),) if self.r.random() < 0.15 else ()
+
   def seq(self, n, recycle=True):
     """Generates adaptively against a live RAM servicer so that most calls are legal."""
     r = self.r
@@ -768,9 +779,9 @@ class Gen:
       elif u < 0.50:
         out.append(('AddTrialMeasurement', o, sid, tid, gen_meas(r, False)))
       elif u < 0.56:
-        out.append(('StopTrial', o, sid, tid))
+        out.append(('StopTrial', o, sid, tid) + self.spelling())
       elif u < 0.60:
-        out.append(('DeleteTrial', o, sid, tid))
+        out.append(('DeleteTrial', o, sid, tid) + self.spelling())
       elif u < 0.66:
         v = r.random()
         if v < self.p['fail'] * 1.5:
@@ -795,7 +806,7 @@ class Gen:
       elif u < 0.89:
         out.append(('ListTrials', o, sid))
       elif u < 0.92:
-        out.append(('GetTrial', o, sid, tid))
+        out.append(('GetTrial', o, sid, tid) + self.spelling())
       elif u < 0.94:
         out.append(('GetStudy', o, sid))
       elif u < 0.96:
